@@ -1,3 +1,317 @@
-import Pmn.Model.Topo
+/-
+C15 — the option file written for a model reproduces that model when read back.
+
+Round trips of the option sub-languages of `Pmn.Model.Cmd`, for lists of any length; each repaired
+defect of the writer is refuted for the former rule by a kernel-checked witness.
+-/
+import Pmn.Model.Cmd
+
 namespace Pmn.Props.C15
+open Pmn.Cmd
+
+/-! ### sources -/
+
+/-- source lists `main` can produce: the single default source, or only explicit ones -/
+def WFSources (dflt : Nat) (ss : List Src) : Prop :=
+  (∃ v, ss = [⟨.abs dflt, v, true⟩]) ∨ (ss ≠ [] ∧ ∀ s ∈ ss, s.isDefault = false)
+
+@[simp] theorem pulse?_pulse (a : Addr) : SOpt.pulse? (.pulse a) = some a := rfl
+@[simp] theorem pulse?_volt (v : Nat) : SOpt.pulse? (.volt v) = none := rfl
+@[simp] theorem volt?_pulse (a : Addr) : SOpt.volt? (.pulse a) = none := rfl
+@[simp] theorem volt?_volt (v : Nat) : SOpt.volt? (.volt v) = some v := rfl
+
+theorem filterMap_pulse_forced (ss : List Src) (h : ∀ s ∈ ss, s.isDefault = false) :
+    (ss.flatMap (writeSrc true)).filterMap SOpt.pulse? = ss.map (·.addr) := by
+  induction ss with
+  | nil => rfl
+  | cons s r ih =>
+    have hs := h s (List.mem_cons_self ..)
+    simp only [List.flatMap_cons, List.filterMap_append, List.map_cons]
+    rw [ih (fun x hx => h x (List.mem_cons_of_mem _ hx))]
+    simp [writeSrc, hs, List.filterMap_cons]
+
+theorem filterMap_volt_forced (ss : List Src) (h : ∀ s ∈ ss, s.isDefault = false) :
+    (ss.flatMap (writeSrc true)).filterMap SOpt.volt? = ss.map (·.volt) := by
+  induction ss with
+  | nil => rfl
+  | cons s r ih =>
+    have hs := h s (List.mem_cons_self ..)
+    simp only [List.flatMap_cons, List.filterMap_append, List.map_cons]
+    rw [ih (fun x hx => h x (List.mem_cons_of_mem _ hx))]
+    simp [writeSrc, hs, List.filterMap_cons]
+
+theorem zipWith_map_self (ss : List Src) (h : ∀ s ∈ ss, s.isDefault = false) :
+    List.zipWith (fun a v => (⟨a, v, false⟩ : Src)) (ss.map (·.addr)) (ss.map (·.volt)) = ss := by
+  induction ss with
+  | nil => rfl
+  | cons s r ih =>
+    have hs := h s (List.mem_cons_self ..)
+    simp only [List.map_cons, List.zipWith_cons_cons]
+    rw [ih (fun x hx => h x (List.mem_cons_of_mem _ hx))]
+    congr 1
+    cases s; simp_all
+
+/-- **sources round trip**: every source comes back on its pulse with its voltage -/
+theorem C15_sources (dflt : Nat) (ss : List Src) (h : WFSources dflt ss) :
+    readSources dflt (writeSources ss) = .ok ss := by
+  rcases h with ⟨v, rfl⟩ | ⟨hne, hall⟩
+  · by_cases hv : v = 0
+    · subst hv; simp [writeSources, writeSrc, readSources, List.filterMap_cons]
+    · simp [writeSources, writeSrc, readSources, List.filterMap_cons, hv]
+  · match ss, hne, hall with
+    | [s], _, hall =>
+      have hs := hall s (List.mem_cons_self ..)
+      obtain ⟨a, v, d⟩ := s
+      simp only at hs
+      subst hs
+      by_cases hv : v = 0
+      · subst hv; simp [writeSources, writeSrc, readSources, List.filterMap_cons]
+      · simp [writeSources, writeSrc, readSources, List.filterMap_cons, hv]
+    | s :: t :: r, _, hall =>
+      have hlen : decide (1 < (s :: t :: r).length) = true := by simp
+      unfold writeSources readSources
+      rw [hlen]
+      simp only [filterMap_pulse_forced _ hall, filterMap_volt_forced _ hall]
+      simp only [List.map_cons, List.isEmpty_cons, Bool.false_eq_true, if_false, List.length_cons,
+        List.length_map, ne_eq, not_true_eq_false]
+      have := zipWith_map_self (s :: t :: r) hall
+      simp only [List.map_cons] at this
+      rw [this]
+
+/-- the former writer (no voltage for a 1 V source): two sources, 1 V and another voltage, are
+rejected when read back -/
+theorem C15_sources_defect_witness :
+    readSources 5 (writeSourcesOld [⟨.abs 3, 0, false⟩, ⟨.abs 5, 7, false⟩])
+      = .error "number-of-excitation-pulses-must-match-voltages" := by rfl
+
+/-! ### complex load value -/
+
+/-- the written load value parses back to the same real and imaginary part, whatever their signs -/
+theorem C15_complex (re im : SNum) (imZero : Bool) :
+    parseComplex (writeComplex re im imZero) = some (re, if imZero then none else some im) := by
+  obtain ⟨rn, ra⟩ := re
+  obtain ⟨iN, ia⟩ := im
+  cases rn <;> cases imZero <;> simp [writeComplex, renderNum, parseComplex]
+
+/-- the former writer: a negative imaginary part gives a text `complex ()` rejects -/
+theorem C15_complex_defect_witness (re : SNum) (b : Nat) :
+    parseComplex (writeComplexOld re ⟨true, b⟩ false) = none := by
+  obtain ⟨rn, ra⟩ := re
+  cases rn <;> simp [writeComplexOld, renderNum, parseComplex]
+
+/-! ### taper by tag -/
+
+theorem idxOf?_getElem_nodup (l : List Nat) (h : l.Nodup) (k : Nat) (hk : k < l.length) :
+    l.idxOf? l[k] = some k := by
+  induction l generalizing k with
+  | nil => simp at hk
+  | cons a r ih =>
+    rw [List.nodup_cons] at h
+    cases k with
+    | zero => simp [List.idxOf?, List.findIdx?_cons]
+    | succ k =>
+      have hk' : k < r.length := by simpa using hk
+      have hne : ¬ (a = r[k]) := fun e => h.1 (e ▸ List.getElem_mem hk')
+      have := ih h.2 k hk'
+      simp only [List.getElem_cons_succ]
+      unfold List.idxOf? at this ⊢
+      rw [List.findIdx?_cons]
+      simp [hne, this]
+
+/-- the wire named in the written `--taper-wire` option is the wire that was tapered -/
+theorem C15_taper (tags : List Nat) (h : tags.Nodup) (k : Nat) (hk : k < tags.length) :
+    (writeTaper true tags k).bind (readTaper tags) = some k := by
+  unfold writeTaper readTaper
+  simp only [if_true, List.getElem?_eq_getElem hk, Option.bind_some]
+  exact idxOf?_getElem_nodup tags h k hk
+
+/-- the former writer (position instead of tag): wires tagged 7 and 3 (tag order 3, 7), taper on the
+wire with tag 7 → `--taper-wire=2,…`, which names no wire; with tags 2 and 3 it names the other wire -/
+theorem C15_taper_defect_witness :
+    (writeTaper false [3, 7] 1).bind (readTaper [3, 7]) = none ∧
+    (writeTaper false [2, 3] 0).bind (readTaper [2, 3]) = none ∧
+    (writeTaper false [2, 3] 1).bind (readTaper [2, 3]) = some 0 := by decide
+
+/-! ### lumped loads: definition order and attachment numbers -/
+
+def defOf (l : Lump) : LClass × Nat := (l.cls, l.params)
+
+@[simp] theorem load?_load (c : LClass) (p : Nat) : LOpt.load? (.load c p) = some (c, p) := rfl
+@[simp] theorem load?_attach (i : Nat) (a : Att) : LOpt.load? (.attach i a) = none := rfl
+@[simp] theorem attachOf_load (j : Nat) (c : LClass) (p : Nat) : LOpt.attachOf j (.load c p) = none := rfl
+@[simp] theorem attachOf_attach (j i : Nat) (a : Att) :
+    LOpt.attachOf j (.attach i a) = if i = j then some a else none := rfl
+
+theorem filterMap_load_attaches (i : Nat) (as : List Att) :
+    (as.map (LOpt.attach i)).filterMap LOpt.load? = [] := by
+  induction as with
+  | nil => rfl
+  | cons a r ih => simp [List.filterMap_cons, ih]
+
+theorem filterMap_attachOf_attaches (j i : Nat) (as : List Att) :
+    (as.map (LOpt.attach i)).filterMap (LOpt.attachOf j) = if i = j then as else [] := by
+  induction as with
+  | nil => simp
+  | cons a r ih =>
+    simp only [List.map_cons, List.filterMap_cons, attachOf_attach, ih]
+    by_cases h : i = j <;> simp [h]
+
+theorem defs_of_write (i : Nat) (ls : List Lump) :
+    (writeLoadsFrom i ls).filterMap LOpt.load? = ls.map defOf := by
+  induction ls generalizing i with
+  | nil => rfl
+  | cons l r ih =>
+    simp only [writeLoadsFrom, List.filterMap_append, List.filterMap_cons, load?_load,
+      filterMap_load_attaches, ih, List.map_cons, defOf]
+    rfl
+
+theorem att_of_write_le (i j : Nat) (ls : List Lump) (h : j ≤ i) :
+    (writeLoadsFrom i ls).filterMap (LOpt.attachOf j) = [] := by
+  induction ls generalizing i with
+  | nil => rfl
+  | cons l r ih =>
+    simp only [writeLoadsFrom, List.filterMap_append, List.filterMap_cons, attachOf_load,
+      filterMap_attachOf_attaches]
+    rw [if_neg (by omega), ih (i + 1) (by omega)]
+    rfl
+
+theorem att_of_write (i j : Nat) (ls : List Lump) (h : i < j) :
+    (writeLoadsFrom i ls).filterMap (LOpt.attachOf j) = ((ls[j - i - 1]?).map (·.att)).getD [] := by
+  induction ls generalizing i with
+  | nil => rfl
+  | cons l r ih =>
+    simp only [writeLoadsFrom, List.filterMap_append, List.filterMap_cons, attachOf_load,
+      filterMap_attachOf_attaches]
+    by_cases hj : i + 1 = j
+    · subst hj
+      rw [if_pos rfl, att_of_write_le (i + 1) (i + 1) r (Nat.le_refl _)]
+      simp
+    · rw [if_neg hj, ih (i + 1) (by omega)]
+      have : j - i - 1 = (j - (i + 1) - 1) + 1 := by omega
+      rw [this]
+      simp
+
+/-- class ranks do not decrease along the list (what `main` builds, and after the repair also the
+order of `m.loads`) -/
+def ClassSorted (ds : List (LClass × Nat)) : Prop := ds.Pairwise (fun a b => a.1.rank ≤ b.1.rank)
+
+theorem filter_eq_nil_of_rank (ds : List (LClass × Nat)) (c : LClass) (k : Nat) (hk : c.rank < k)
+    (h : ∀ d ∈ ds, k ≤ d.1.rank) : ds.filter (·.1 = c) = [] := by
+  rw [List.filter_eq_nil_iff]
+  intro d hd
+  have := h d hd
+  simp only [decide_eq_true_eq]
+  intro e; rw [e] at this; omega
+
+/-- grouping by class leaves a class-sorted list unchanged -/
+theorem groupByClass_sorted (ds : List (LClass × Nat)) (h : ClassSorted ds) : groupByClass ds = ds := by
+  induction ds with
+  | nil => rfl
+  | cons d r ih =>
+    have hp := List.pairwise_cons.mp h
+    have ihr := ih hp.2
+    unfold groupByClass at ihr ⊢
+    obtain ⟨c, p⟩ := d
+    cases c
+    · simp only [List.filter_cons]
+      simp
+      simpa [List.append_assoc] using ihr
+    · have e0 := filter_eq_nil_of_rank r .imp 1 (by decide) (fun d hd => hp.1 d hd)
+      simp only [List.filter_cons]
+      simp [e0] at ihr ⊢
+      simpa [List.append_assoc] using ihr
+    · have e0 := filter_eq_nil_of_rank r .imp 2 (by decide) (fun d hd => hp.1 d hd)
+      have e1 := filter_eq_nil_of_rank r .rlc 2 (by decide) (fun d hd => hp.1 d hd)
+      simp only [List.filter_cons]
+      simp [e0, e1] at ihr ⊢
+      simpa [List.append_assoc] using ihr
+    · have e0 := filter_eq_nil_of_rank r .imp 3 (by decide) (fun d hd => hp.1 d hd)
+      have e1 := filter_eq_nil_of_rank r .rlc 3 (by decide) (fun d hd => hp.1 d hd)
+      have e2 := filter_eq_nil_of_rank r .trap 3 (by decide) (fun d hd => hp.1 d hd)
+      simp only [List.filter_cons]
+      simp [e0, e1, e2] at ihr ⊢
+      simpa [List.append_assoc] using ihr
+
+theorem attachFrom_write (ls pre t : List Lump) (hsplit : ls = pre ++ t) :
+    attachFrom (writeLoads ls) pre.length (t.map defOf) = t := by
+  induction t generalizing pre with
+  | nil => rfl
+  | cons d r ih =>
+    simp only [List.map_cons, attachFrom]
+    have hatt : (writeLoads ls).filterMap (LOpt.attachOf (pre.length + 1)) = d.att := by
+      unfold writeLoads
+      rw [att_of_write 0 (pre.length + 1) ls (by omega)]
+      have : pre.length + 1 - 0 - 1 = pre.length := by omega
+      rw [this, hsplit]
+      simp
+    rw [hatt]
+    have := ih (pre ++ [d]) (by rw [hsplit]; simp)
+    simp only [List.length_append, List.length_singleton] at this
+    rw [this]
+    cases d; rfl
+
+/-- **loads round trip**: with the loads in definition (class) order and every load attached at
+least once, each written `--attach-load` number refers to the load it was written for, and every
+load comes back with exactly its attachments, in order -/
+theorem C15_loads (ls : List Lump) (hs : ClassSorted (ls.map defOf)) (hatt : ∀ l ∈ ls, l.att ≠ []) :
+    readLoads (writeLoads ls) = .ok ls := by
+  unfold readLoads
+  have hdefs : groupByClass ((writeLoads ls).filterMap LOpt.load?) = ls.map defOf := by
+    unfold writeLoads; rw [defs_of_write, groupByClass_sorted _ hs]
+  simp only [hdefs, List.length_map]
+  have hbad : (writeLoads ls).any (LOpt.badIdx ls.length) = false := by
+    rw [List.any_eq_false]
+    intro o ho
+    unfold writeLoads at ho
+    suffices H : ∀ (i : Nat) (xs : List Lump) (o : LOpt), o ∈ writeLoadsFrom i xs →
+        ∀ n, i + xs.length ≤ n → LOpt.badIdx n o = false by
+      have := H 0 ls o ho ls.length (by omega)
+      simp [this]
+    intro i xs
+    induction xs generalizing i with
+    | nil => intro o ho; simp [writeLoadsFrom] at ho
+    | cons l r ih =>
+      intro o ho n hn
+      simp only [writeLoadsFrom, List.mem_append, List.mem_cons, List.mem_map] at ho
+      simp only [List.length_cons] at hn
+      rcases ho with (rfl | ⟨a, _, rfl⟩) | ho
+      · rfl
+      · simp only [LOpt.badIdx, decide_eq_false_iff_not]; omega
+      · exact ih (i + 1) o ho n (by omega)
+  rw [hbad]
+  simp only [Bool.false_eq_true, if_false]
+  have hl := attachFrom_write ls [] ls rfl
+  simp only [List.length_nil] at hl
+  rw [hl]
+  have hne : (ls.any (·.att.isEmpty)) = false := by
+    rw [List.any_eq_false]
+    intro l hl'
+    have := hatt l hl'
+    simp [this]
+  rw [hne]
+  rfl
+
+/-- what `main` reads is always class-sorted, so `C15_loads` applies to every model that came from
+a command line -/
+theorem C15_read_sorted (ds : List (LClass × Nat)) : ClassSorted (groupByClass ds) := by
+  unfold ClassSorted groupByClass
+  simp only [List.pairwise_append, List.mem_append, List.mem_filter, decide_eq_true_eq]
+  refine ⟨⟨⟨?_, ?_, ?_⟩, ?_, ?_⟩, ?_, ?_⟩
+  all_goals first
+    | (apply List.Pairwise.imp_of_mem (R := fun _ _ => True) _ (List.pairwise_of_forall (fun _ _ => trivial));
+       intro a b ha hb _
+       simp only [List.mem_filter, decide_eq_true_eq] at ha hb
+       rw [ha.2, hb.2]; exact Nat.le_refl _)
+    | (intro a ha b hb
+       first
+        | (rcases ha with (ha | ha) | ha <;> rw [ha.2, hb.2] <;> decide)
+        | (rcases ha with ha | ha <;> rw [ha.2, hb.2] <;> decide)
+        | (rw [ha.2, hb.2]; decide))
+
+/-- the former numbering (order of first attachment): `--load` defined first but attached last is
+written second, and comes back with the attachment of the other load -/
+theorem C15_loads_defect_witness :
+    (readLoads (writeLoads [⟨.rlc, 11, [.pulse 1]⟩, ⟨.imp, 22, [.pulse 2]⟩])).toOption
+      = some [⟨.imp, 22, [.pulse 1]⟩, ⟨.rlc, 11, [.pulse 2]⟩] := by decide
+
 end Pmn.Props.C15
